@@ -147,7 +147,7 @@ func validHostname(s string) bool {
 
 	maxLength := 253
 	if s[len(s)-1] == '.' {
-		maxLength = 254
+		// the trailing dot does not count towards maxLength
 		s = s[:len(s)-1] // remove the last dot --> easier computations
 	}
 
